@@ -14,6 +14,7 @@ struct Step {
   Query q;
   bool check = true;            // compare the answer with a pristine twin's
   bool then_lookup_cs = false;  // setter: ask lookup(cs) for the civil second that instant q.a maps to
+  int zone = 0;                 // 0: the subject zone; 1: a different real zone; 2: UTC; 3: a fixed-offset zone (decoy calls, never checked)
 };
 
 struct C14aCase {
